@@ -203,13 +203,27 @@ fn svd_from_vectors<const D: usize>(
     let result = matrix.svd(false, true);
     let v_t = result.v_t.unwrap();
 
+    // The singular values which nalgebra reports together with the right-singular vectors are
+    // inaccurate (relative errors of 1e-3 have been observed) when the matrix is rank deficient,
+    // for example when the points lie exactly on a plane or a line, while the vectors themselves
+    // are good. Each singular value is therefore recomputed as the norm of the matrix applied to
+    // its right-singular vector, and the pairs are put back in order.
+    let mut pairs = Vec::with_capacity(D);
+    for i in 0..D {
+        let mut b = SVector::<f64, D>::zeros();
+        for j in 0..D {
+            b[j] = v_t[(i, j)];
+        }
+        let s = vecs.iter().map(|v| v.dot(&b).powi(2)).sum::<f64>().sqrt();
+        pairs.push((s, b));
+    }
+    pairs.sort_by(|a, b| b.0.total_cmp(&a.0));
+
     let mut basis = [SVector::<f64, D>::zeros(); D];
     let mut scales = [0.0; D];
-    for i in 0..D {
-        for j in 0..D {
-            basis[i][j] = v_t[(i, j)];
-        }
-        scales[i] = result.singular_values[i];
+    for (i, (s, b)) in pairs.into_iter().enumerate() {
+        basis[i] = b;
+        scales[i] = s;
     }
 
     SvdBasis {
